@@ -1,2 +1,49 @@
-(* C14 - the information header can never change or corrupt the payload (theorems added as they are proved) *)
-From BSE Require Import Model.Val Model.Header.
+(* C14 - the information header can never change or corrupt the payload.  Statements: Proofs/HeaderDefs.v.
+   writer_map / reader_map are Gen/GenWriters.v / Gen/GenReaders.v = the tables of writers/write.py and readers/*.py now. *)
+From BSE Require Import Model.Val Model.Text Model.Header Gen.GenWriters Gen.GenReaders Proofs.HeaderDefs.
+From BSE Require Proofs.HeaderSpec.
+
+Theorem splitlines_concat : splitlines_concat_stmt.
+Proof. exact HeaderSpec.splitlines_concat. Qed.
+Print Assumptions splitlines_concat.
+
+(* whatever line boundaries a header contains, every line of the commented header starts with the comment marker *)
+Theorem header_lines_commented : header_lines_commented_stmt.
+Proof. exact HeaderSpec.header_lines_commented. Qed.
+Print Assumptions header_lines_commented.
+
+Theorem header_empty : header_empty_stmt.
+Proof. exact HeaderSpec.header_empty. Qed.
+Print Assumptions header_empty.
+
+(* headed text = [psi4 keyword line] ++ commented header ++ separator ++ bare payload; no marker or no header: bare text *)
+Theorem assemble_shape : assemble_shape_stmt.
+Proof. exact HeaderSpec.assemble_shape. Qed.
+Print Assumptions assemble_shape.
+
+(* comment and blank lines in front of the payload do not change what a reader's prune_lines hands on *)
+Theorem prune_lines_header : prune_lines_header_stmt.
+Proof. exact HeaderSpec.prune_lines_header. Qed.
+Print Assumptions prune_lines_header.
+
+Theorem commented_line_skipped : commented_line_skipped_stmt.
+Proof. exact HeaderSpec.commented_line_skipped. Qed.
+Print Assumptions commented_line_skipped.
+
+(* finite, over the translated tables *)
+Theorem all_markers_ok : all_markers_ok_stmt.
+Proof. exact HeaderSpec.all_markers_ok. Qed.
+Print Assumptions all_markers_ok.
+
+Theorem header_safe_formats_hold : header_safe_formats_stmt.
+Proof. exact HeaderSpec.header_safe_formats. Qed.
+Print Assumptions header_safe_formats_hold.
+
+Theorem no_marker_formats : no_marker_formats_stmt.
+Proof. exact HeaderSpec.no_marker_formats. Qed.
+Print Assumptions no_marker_formats.
+
+Example header_demo :
+  splitlines_keepends (header_comment "#" ("a" +++ String (byte 13) (String (byte 10) ("b" +++ String (byte 226) (String (byte 128) (String (byte 168) "c"))))))
+  = ["#a" +++ String (byte 13) (String (byte 10) ""); "#b" +++ String (byte 226) (String (byte 128) (String (byte 168) "")); "#c"].
+Proof. vm_compute. reflexivity. Qed.
